@@ -913,11 +913,38 @@ pub fn outcome_signature(a: &Analysis<'_>) -> BTreeMap<String, Vec<String>> {
 // C09 — World lifecycle and hooks
 
 pub fn c09(a: &Analysis<'_>, out: &mut Vec<Violation>) {
+    let evs = &a.h.events;
+    let cb = &a.h.cb;
+    // A panic of user code that escapes the runner cuts every attempt in flight short: each of them
+    // began (its before hook / steps ran) and owes its after hook, which now never runs. (Termination
+    // and containment themselves are C04's and C10's; here it is the hook contract that is broken.)
+    if a.h.end == crate::core::RunEnd::Panicked && a.plan.after_hook {
+        for at in &a.attempts {
+            let Some(s) = at.started else { continue };
+            if a.twin_names.contains(&at.scenario) {
+                continue;
+            }
+            let ts = evs[s].at;
+            let tf = at.finished.map(|f| evs[f].at);
+            let n = cb
+                .iter()
+                .filter(|c| c.kind == CbKind::After && c.scenario.as_deref() == Some(at.scenario.as_str()) && c.enter > ts && tf.is_none_or(|t| c.enter < t))
+                .count();
+            // (another attempt of the same scenario cannot be in progress at the same time)
+            if n == 0 {
+                out.push(
+                    v("C09", "after-hook-count", format!("attempt {} {:?} began, a panic escaped the runner ({:?}) and its after hook never ran", at.scenario, at.retries, a.h.escaped_panic))
+                        .attr("n", 0)
+                        .attr("cause", "escaped-panic"),
+                );
+                break;
+            }
+        }
+        return;
+    }
     if !a.complete() {
         return;
     }
-    let evs = &a.h.events;
-    let cb = &a.h.cb;
     // (i) every callback sees counter == len(trail)
     for c in cb {
         if let Some((counter, trail)) = c.counter_on_entry {
